@@ -655,6 +655,8 @@ func (b *Backend) handle(conn net.Conn, lines []string) (keep bool) {
 		full := body
 		if len(full) > 4 {
 			body = full[:len(full)/2]
+		} else if len(full) > 0 {
+			body = full[:len(full)-1]
 		}
 		if req.fixed16 {
 			_, _ = fmt.Fprintf(conn, "%d %11d\n", code, len(full))
